@@ -9,6 +9,7 @@ import (
 	"encoding/json"
 	"net/http"
 	"net/url"
+	"strconv"
 	"strings"
 	"time"
 
@@ -352,4 +353,45 @@ func VK18bStat() {
 			vrt.Assert(seen[x] == 0, "absent or unrequested blobs are not reported")
 		}
 	}
+}
+
+// K18d: the documented batch limit: 1000 blobN values are answered, 1001 are refused.
+func VK18dStatLimit() {
+	vStubs()
+	vStatRes, vBadReq = nil, false
+	vrt.Stub("perkeep.org/internal/httputil.ReturnJSON", func(rw http.ResponseWriter, data any) {
+		vStatRes = data.(*protocol.StatResponse)
+		rw.WriteHeader(200)
+	})
+	vrt.Stub("perkeep.org/internal/httputil.BadRequestError", func(rw http.ResponseWriter, msg string, args ...any) {
+		vBadReq = true
+		rw.WriteHeader(400)
+	})
+	st := &vmodel.Store{}
+	st.Put(blob.VerifSmallRef(1), make([]byte, 2))
+	n := 999 + vrt.Choice(3)
+	form := url.Values{"camliversion": {"1"}}
+	one, other := blob.VerifSmallRef(1).String(), blob.VerifSmallRef(2).String()
+	for i := 1; i <= n; i++ {
+		v := other
+		if i == n {
+			v = one
+		}
+		form["blob"+strconv.Itoa(i)] = []string{v}
+	}
+	rw := &vRW{}
+	handleStat(rw, &http.Request{Method: "POST", Form: form}, st)
+	if n > 1000 {
+		vrt.Assert(rw.status == 400, "more than 1000 stat values are refused")
+		vrt.Cover("refused")
+		return
+	}
+	vrt.Assert(rw.status == 200 || rw.status == 0, "a batch within the documented limit of 1000 is answered")
+	res := vStatRes
+	if res == nil {
+		res = new(protocol.StatResponse)
+		vrt.Assert(json.Unmarshal(rw.body, res) == nil, "the stat response is JSON")
+	}
+	vrt.Assert(len(res.Stat) == 1 && res.Stat[0].Ref == blob.VerifSmallRef(1) && res.Stat[0].Size == 2, "the last value of a full batch is reported")
+	vrt.Cover("full")
 }
